@@ -306,9 +306,53 @@ def replay_finding(req):
     return {"reproduced": False, "note": "unknown witness kind"}
 
 
+def validate_model():
+    """Bounded validation of the assumed ElementTree model (contracts/etree_model.py) against xml.etree:
+    the model's functions, computed on the abstract tree, agree with the real API on every tree of the
+    small grammar (<= 3 levels, <= 3 children, tags a/b, optional text/tail/attribute)."""
+    import itertools
+    tags = ["a", "b"]
+    leaves = [N(t, text=tx, tail=tl, **at) for t in tags for tx in (None, "x") for tl in (None, "y") for at in ({}, {"k": "v"})]
+    level1 = [N(t, *kids) for t in tags for n in (0, 1, 2) for kids in itertools.product(leaves[:6], repeat=n)]
+    trees = level1 + [N(t, *kids, text="r") for t in tags for kids in itertools.product(level1[:14], repeat=2)]
+    bad = []
+    for t in trees:
+        e = to_et(t)
+        for node, el in zip(t.walk(), e.iter()):
+            pre = [x for x in node.walk()]
+            checks = [
+                (node.tag, el.tag), (node.text, el.text), (node.tail, el.tail), (len(node.children), len(el)),
+                ([c.tag for c in node.children], [c.tag for c in el]),
+                (node.attrib.get("k", "d"), el.get("k", "d")),
+                (bool(node.children), bool(len(el))),
+            ]
+            for tg in tags:
+                first = next((c for c in node.children if c.tag == tg), None)
+                f = el.find(tg)
+                checks.append((None if first is None else node.children.index(first), None if f is None else list(el).index(f)))
+                checks.append(([id(x) for x in pre if x.tag == tg].__len__(), len(list(el.iter(tg)))))
+                checks.append(([c.tag for c in node.children if c.tag == tg], [c.tag for c in el.findall(tg)]))
+                checks.append(([x.text for x in pre if x.tag == tg], [x.text for x in el.iter(tg)]))
+            for a, b in checks:
+                if a != b:
+                    bad.append((t.brief(), a, b))
+    return {"trees": len(trees), "mismatches": bad[:5]}
+
+
 def main(argv):
     if len(argv) >= 2 and argv[1] == "bounded":
-        print(json.dumps(run_checks(argv[2:] or None), default=repr))
+        names = [a for a in argv[2:] if not a.startswith("--")]
+        out = run_checks(names or None)
+        if not names:
+            from replay import c02_docs
+            out["documents"] = c02_docs.run_documents()
+            out["model"] = validate_model()
+        print(json.dumps(out, default=repr))
+    elif len(argv) >= 2 and argv[1] == "docs":
+        from replay import c02_docs
+        print(json.dumps(c02_docs.run_documents(argv[2:] or None), default=repr, indent=1))
+    elif len(argv) >= 2 and argv[1] == "validate-model":
+        print(json.dumps(validate_model(), default=repr))
     elif len(argv) >= 3 and argv[1] == "find":
         print(json.dumps(find({"obligation": argv[2]}), default=repr, indent=1))
     else:
